@@ -14,7 +14,7 @@ Lemma next_delta : forall cfg s l s' a b,
   exists d, sent_ab s' a b = sent_ab s a b ++ d /\ got_ab s' a b = got_ab s a b ++ d.
 Proof.
   intros cfg s l s' a b Hm Hab Hn. unfold sent_ab, got_ab.
-  destruct l as [e | c | c | | c | ]; cbn [next] in Hn.
+  destruct l as [e | c | c | c | | c | ]; cbn [next] in Hn.
   - destruct (route (prog cfg) (e_ty e)) as [t|]; [|discriminate].
     destruct (Nat.ltb t (n_ctx cfg) && room cfg s t); inv Hn. exists []. rewrite !app_nil_r. cbn [cs set_cs].
     split.
@@ -32,31 +32,43 @@ Proof.
       cbn [inbox g_recv]. rewrite Ei, inflight_cons_bar. reflexivity.
   - destruct (negb (Nat.ltb c (n_ctx cfg))); [discriminate|].
     destruct (outq (cs s c)) as [|e r] eqn:Eo; [discriminate|].
-    match type of Hn with (match ?T with _ => _ end) = _ => destruct T as [t|] eqn:Et end.
+    destruct (target_of cfg c e) as [t|] eqn:Et.
     + assert (Htc : t <> c).
-      { destruct (route (prog cfg) (e_ty e)) as [t0|]; [|discriminate].
+      { unfold target_of in Et. destruct (route (prog cfg) (e_ty e)) as [t0|]; [|discriminate].
         destruct (Nat.ltb t0 (n_ctx cfg) && negb (Nat.eqb t0 c)) eqn:E2; [|discriminate]. inv Et.
         apply andb_prop in E2. destruct E2 as [_ E2]. apply negb_true_iff in E2. apply Nat.eqb_neq in E2. exact E2. }
-      destruct (room cfg s t); [|rewrite Hm in Hn; discriminate]. inv Hn. cbn [cs].
-      exists (if Nat.eqb a c && Nat.eqb b t then [e] else []). split.
-      * destruct (Nat.eq_dec a t) as [->|Hat].
-        -- rewrite upd_same, (upd_other _ _ _ _ t Htc). cbn [g_sent push_inbox].
-           destruct (Nat.eqb t c) eqn:E; [apply Nat.eqb_eq in E; contradiction|]. cbn [andb]. rewrite app_nil_r. reflexivity.
-        -- rewrite (upd_other _ _ _ _ a Hat).
-           destruct (Nat.eq_dec a c) as [->|Ha].
-           ++ rewrite upd_same. cbn [g_sent]. rewrite sent_to_app, sent_to_single, Nat.eqb_refl. cbn [andb].
-              rewrite (Nat.eqb_sym b t). reflexivity.
-           ++ rewrite (upd_other _ _ _ _ a Ha). destruct (Nat.eqb a c) eqn:E; [apply Nat.eqb_eq in E; contradiction|].
-              cbn [andb]. rewrite app_nil_r. reflexivity.
-      * destruct (Nat.eq_dec b t) as [->|Hb].
-        -- rewrite upd_same, (upd_other _ _ _ _ t Htc). cbn [inbox g_recv push_inbox].
-           rewrite inflight_app, inflight_single_ev, Nat.eqb_refl, andb_true_r, (Nat.eqb_sym a c), app_assoc. reflexivity.
-        -- rewrite (upd_other _ _ _ _ b Hb).
-           destruct (Nat.eqb b t) eqn:E; [apply Nat.eqb_eq in E; contradiction|]. rewrite andb_false_r, app_nil_r.
-           destruct (Nat.eq_dec b c) as [->|Hbc]; [rewrite upd_same | rewrite (upd_other _ _ _ _ b Hbc)]; reflexivity.
+      assert (Hfwd : forall s1, next_fwd_cs s c t e r (cs s1) ->
+                exists d, sent_to b (g_sent (cs s1 a)) = sent_to b (g_sent (cs s a)) ++ d /\
+                          recv_from a (g_recv (cs s1 b)) ++ inflight a (inbox (cs s1 b)) =
+                          (recv_from a (g_recv (cs s b)) ++ inflight a (inbox (cs s b))) ++ d).
+      { intros s1 Hcs. unfold next_fwd_cs in Hcs. rewrite Hcs.
+        exists (if Nat.eqb a c && Nat.eqb b t then [e] else []). split.
+        * destruct (Nat.eq_dec a t) as [->|Hat].
+          -- rewrite upd_same, (upd_other _ _ _ _ t Htc). cbn [g_sent push_inbox].
+             destruct (Nat.eqb t c) eqn:E; [apply Nat.eqb_eq in E; contradiction|]. cbn [andb]. rewrite app_nil_r. reflexivity.
+          -- rewrite (upd_other _ _ _ _ a Hat).
+             destruct (Nat.eq_dec a c) as [->|Ha].
+             ++ rewrite upd_same. cbn [g_sent]. rewrite sent_to_app, sent_to_single, Nat.eqb_refl. cbn [andb].
+                rewrite (Nat.eqb_sym b t). reflexivity.
+             ++ rewrite (upd_other _ _ _ _ a Ha). destruct (Nat.eqb a c) eqn:E; [apply Nat.eqb_eq in E; contradiction|].
+                cbn [andb]. rewrite app_nil_r. reflexivity.
+        * destruct (Nat.eq_dec b t) as [->|Hb].
+          -- rewrite upd_same, (upd_other _ _ _ _ t Htc). cbn [inbox g_recv push_inbox].
+             rewrite inflight_app, inflight_single_ev, Nat.eqb_refl, andb_true_r, (Nat.eqb_sym a c), app_assoc. reflexivity.
+          -- rewrite (upd_other _ _ _ _ b Hb).
+             destruct (Nat.eqb b t) eqn:E; [apply Nat.eqb_eq in E; contradiction|]. rewrite andb_false_r, app_nil_r.
+             destruct (Nat.eq_dec b c) as [->|Hbc]; [rewrite upd_same | rewrite (upd_other _ _ _ _ b Hbc)]; reflexivity. }
+      destruct (memb c (rs s t)); [inv Hn; apply Hfwd; reflexivity|].
+      destruct (memb c (wq s t)); [discriminate|].
+      destruct (room cfg s t); [inv Hn; apply Hfwd; reflexivity|].
+      rewrite Hm in Hn. discriminate.
     + inv Hn. exists []. rewrite !app_nil_r. cbn [cs]. split.
       * destruct (Nat.eq_dec a c) as [->|Ha]; [rewrite upd_same | rewrite (upd_other _ _ _ _ a Ha)]; reflexivity.
       * destruct (Nat.eq_dec b c) as [->|Hb]; [rewrite upd_same | rewrite (upd_other _ _ _ _ b Hb)]; reflexivity.
+  - destruct (negb (Nat.ltb c (n_ctx cfg))); [discriminate|].
+    destruct (mode cfg); [discriminate|]. destruct (outq (cs s c)) as [|e r]; [discriminate|].
+    destruct (target_of cfg c e) as [t|]; [|discriminate].
+    destruct (memb c (rs s t) || memb c (wq s t) || room cfg s t); inv Hn. exists []. rewrite !app_nil_r. split; reflexivity.
   - destruct (pending s); inv Hn. exists []. rewrite !app_nil_r. split; reflexivity.
   - destruct (pending s) as [p|]; [|discriminate].
     destruct (existsb (Nat.eqb c) (p_tosend p)); inv Hn. exists []. rewrite !app_nil_r. cbn [cs].
@@ -170,7 +182,7 @@ Section Quiescent.
 
   Lemma J_next : forall s l s', J s -> is_ingress l = false -> next cfg s l = Some s' -> J s'.
   Proof.
-    intros s l s' [Jc [Ja [Jp Jd]]] Hl Hn. destruct l as [e | c | c | | c | ]; [discriminate| | | | |]; cbn [next] in Hn.
+    intros s l s' [Jc [Ja [Jp Jd]]] Hl Hn. destruct l as [e | c | c | c | | c | ]; [discriminate| | | | | |]; cbn [next] in Hn.
     - (* Recv *)
       destruct (Nat.ltb c (n_ctx cfg)) eqn:Hc; [|discriminate]. cbn [negb] in Hn. apply Nat.ltb_lt in Hc.
       destruct (Jc c Hc) as [Ho [Hi [Hr Hs]]]. rewrite Ho in Hn.
@@ -187,6 +199,9 @@ Section Quiescent.
     - (* Route: nothing to route *)
       destruct (Nat.ltb c (n_ctx cfg)) eqn:Hc; [|discriminate]. cbn [negb] in Hn. apply Nat.ltb_lt in Hc.
       destruct (Jc c Hc) as [Ho _]. rewrite Ho in Hn. discriminate.
+    - (* Wait: nothing to forward *)
+      destruct (Nat.ltb c (n_ctx cfg)) eqn:Hc; [|discriminate]. cbn [negb] in Hn. apply Nat.ltb_lt in Hc.
+      destruct (Jc c Hc) as [Ho _]. rewrite Ho in Hn. destruct (mode cfg); discriminate.
     - (* Init *)
       destruct (pending s); inv Hn. split; [exact Jc | split; [exact Ja | split; [|exact Jd]]].
       cbn [pending]. intros p Hp. inv Hp. intros c sn [].
